@@ -177,8 +177,8 @@ func TestC06Random(t *testing.T) {
 		switch rapid.SampledFrom([]int{0, 0, 1, 1, 1, 1, 2, 3, 3, 4, 4}).Draw(t, "k") {
 		case 0:
 			id := rapid.SampledFrom(nodeIDs).Draw(t, "n")
-			return model.Op{K: "regnode", N: id, NT: typeOf[id], CloseErr: rapid.IntRange(0, 5).Draw(t, "closeErr") == 0,
-				Pol: rapid.SampledFrom([]int{0, 0, 0, 1, 2}).Draw(t, "pol"), Shape: rapid.SampledFrom([]int{0, 0, 0, 1, 2, 3, 4}).Draw(t, "shape"),
+			return model.Op{K: "regnode", N: id, NT: typeOf[id], CloseErr: rapid.IntRange(0, 4).Draw(t, "closeErr") == 0, CloseKind: rapid.IntRange(0, 2).Draw(t, "closeKind"),
+				Pol: rapid.SampledFrom([]int{0, 0, 0, 1, 2}).Draw(t, "pol"), Shape: rapid.SampledFrom([]int{0, 0, 0, 1, 2, 3, 4, 5}).Draw(t, "shape"),
 				Reuse: rapid.IntRange(0, 6).Draw(t, "reuse") == 0}
 		case 1:
 			inner := rapid.SliceOfN(rapid.SampledFrom([]string{"h", "h", "f", "g", "s"}), 0, 2).Draw(t, "inner")
@@ -196,7 +196,7 @@ func TestC06Random(t *testing.T) {
 	rapid.Check(t, func(t *rapid.T) {
 		var pre []model.Op
 		for _, id := range nodeIDs {
-			pre = append(pre, model.Op{K: "regnode", N: id, NT: typeOf[id], Shape: rapid.SampledFrom([]int{0, 0, 1, 2, 3}).Draw(t, "preShape-"+id)})
+			pre = append(pre, model.Op{K: "regnode", N: id, NT: typeOf[id], Shape: rapid.SampledFrom([]int{0, 0, 1, 2, 3, 5}).Draw(t, "preShape-"+id)})
 		}
 		ops := append(pre, rapid.SliceOfN(opGen, 1, maxOps).Draw(t, "ops")...)
 		msg, c := runSeq(ops, ets, nodeIDs, true)
